@@ -36,6 +36,36 @@ MUTATIONS = {
     "lastwill-unforced": ("Model/Core.v", "(fun s => iter_ops (fun s kv => do_insert s c (fst kv) (Plain (snd kv)) true)",
                           "(fun s => iter_ops (fun s kv => do_insert s c (fst kv) (Plain (snd kv)) false)", ["C07"]),
     "guard-allows-other-client": ("Model/Core.v", "if negb (str_eqb p1 s_clients) || negb (str_eqb p2 (client_str c))", "if negb (str_eqb p1 s_clients)", ["C08"]),
+    # ---- second batch ----
+    "quiet-ignored": ("Model/Session.v", "[SPState t p (PDel (match q with Some true => [] | _ => l end))]", "[SPState t p (PDel l)]", ["C13"]),
+    "sub-ack-after-events": ("Model/Session.v", "| MSubscribe _ _ _ _ | MPSubscribe _ _ _ _ _ | MSubscribeLs _ _ => (w', ans ++ route_events w' out, Continue)",
+                             "| MSubscribe _ _ _ _ | MPSubscribe _ _ _ _ _ | MSubscribeLs _ _ => (w', route_events w' out ++ ans, Continue)", ["C13"]),
+    "v0-serves-cget": ("Model/Session.v", "match m with MCGet _ _ | MCSet _ _ _ _ | MLock _ _ | MAcquireLock _ _ | MReleaseLock _ _ => true | _ => false end.",
+                       "match m with MCSet _ _ _ _ | MLock _ _ | MAcquireLock _ _ | MReleaseLock _ _ => true | _ => false end.", ["C13"]),
+    "waithb-checks-member": ("Model/Election.v", "      | HbReq id => (set_ph s (Done (Follower id)), [])\n      | Garbage => (set_ph s (Done Failed), [])\n      | _ => (s, [])\n      end\n  | Requesting",
+                             "      | HbReq id => if is_part_of_cluster s id then (set_ph s (Done (Follower id)), []) else (s, [])\n      | Garbage => (set_ph s (Done Failed), [])\n      | _ => (s, [])\n      end\n  | Requesting", ["C19"]),
+    "dup-votes-count": ("Model/Election.v", "(set_ph s (Requesting v' (filter (fun x => negb (str_eqb x id)) rem) (id :: voters)), [])",
+                        "(set_ph s (Requesting v' rem (id :: voters)), [])", ["C19"]),
+    "prio-strict": ("Model/Election.v", "Definition prio_ge (theirs mine : Z) : bool := Z.leb theirs mine.", "Definition prio_ge (theirs mine : Z) : bool := Z.ltb theirs mine.", ["C19"]),
+    "ls-auth-on-parent": ("Model/Auth.v", "match parent with Some p => p ++ [slash; ch_qmark] | None => [ch_qmark] end.", "match parent with Some p => p | None => [ch_qmark] end.", ["C15"]),
+    "publish-needs-read": ("Model/Auth.v", "| MSet _ k _ | MCSet _ k _ _ | MSPubInit _ k | MPublish _ k _\n  | MLock _ k | MAcquireLock _ k | MReleaseLock _ k => Some (PWrite, k)",
+                           "| MPublish _ k _ => Some (PRead, k)\n  | MSet _ k _ | MCSet _ k _ _ | MSPubInit _ k\n  | MLock _ k | MAcquireLock _ k | MReleaseLock _ k => Some (PWrite, k)", ["C15"]),
+    "no-flush-on-kind-change": ("Model/Aggregator.v", "let '(a2, out) := if (match del_buf a1 with [] => false | _ => true end) || already_buffered a1 kvs",
+                                "let '(a2, out) := if already_buffered a1 kvs", ["C16"]),
+    "sub-multi-zero-levels": ("Model/Match.v", "  | [], [] => true\n  | Multi :: _, _ :: _ => true\n  | Wild :: p', _ :: k' => sub_match p' k'",
+                              "  | [], [] => true\n  | Multi :: _, _ => true\n  | Wild :: p', _ :: k' => sub_match p' k'", ["C04", "C03"]),
+    "checksum-not-compared": ("Model/Persist.v", "| Some (FJson j), Some (FSum j') => if json_eqb j j' then Some j else None", "| Some (FJson j), Some (FSum j') => Some j", ["C10", "C09"]),
+    "fallback-without-gglw": ("Model/Persist.v", "          | Some (gg, lw) => Some (apply_gglw (core_of n) gg lw, flip d)\n          | None => None",
+                              "          | Some (gg, lw) => Some (apply_gglw (core_of n) gg lw, flip d)\n          | None => Some (core_of n, flip d)", ["C10"]),
+    "cas-tag-any-number": ("Model/Entry.v", "match u64_of_lit lit with Some n => Cas v n | None => Plain j end", "match digits_val lit 0 with Some n => Cas v n | None => Plain j end", ["C09"]),
+    "mirror-sys-pdelete": ("Model/Sync.v", "| OPDelete _ p => if starts_with s_SYS_prefix p then [] else [WPDelete p]", "| OPDelete _ p => [WPDelete p]", ["C11"]),
+    "end-mirror-unforced": ("Model/Sync.v", "[WSet (fst kv) (snd kv) true]) lw.", "[WSet (fst kv) (snd kv) false]) lw.", ["C11"]),
+    "promote-skips-wills": ("Model/Sync.v", "let f1 := apply_gglw f (all_grave_goods f) (all_last_wills f) in", "let f1 := apply_gglw f (all_grave_goods f) [] in", ["C12"]),
+    "recover-skips-wills": ("Model/Redb.v", "  fold_left (fun s cl => fold_left (fun s kv => fst (do_insert s 0 (fst kv) (Plain (snd kv)) true)) (snd cl) s) (t_lw t) s1.\n\n(* a whole run",
+                            "  s1.\n\n(* a whole run", ["C18"]),
+    "internal-delete-clears-table": ("Model/Redb.v", "if starts_with s_SYS_prefix k then (if N.eqb c 0 then [] else reg_del k) else [ADel k].", "if starts_with s_SYS_prefix k then reg_del k else [ADel k].", ["C18"]),
+    "ticket-unsub-needs-callback": ("Model/Client.v", "      (CState n (ack c) (state c) (cstate_ c) (pstate c) (lsstate c) (cb_remove tid (sub c)) (cb_remove tid (psub c)) (subls c),\n       MUnsubscribe tid, Ticket tid)",
+                                    "      (CState n (ack c) (state c) (cstate_ c) (pstate c) (lsstate c) (cb_remove tid (sub c)) (cb_remove tid (psub c)) (subls c),\n       MUnsubscribeLs tid, Ticket tid)", ["C20"]),
 }
 
 def sh(cmd, cwd=None, env=None, timeout=3600):
